@@ -1,5 +1,4 @@
-import SciVerif.Drive.Util
+import SciVerif.Drive.C12
 open Lean SciVerif.Drive
 
-/-- C12 model driver: not built yet. -/
-def main : IO Unit := serve (fun _ => throw "C12: no model yet")
+def main : IO Unit := serve SciVerif.C12.Drive.handle
